@@ -1097,6 +1097,11 @@ func translate(p *pkg, it Item) (out string, err error) {
 		// walk statements in order until the local is defined; translate its initialiser
 		var found ast.Expr
 		pre := ""
+		type localDef struct {
+			name string
+			rhs  ast.Expr
+		}
+		var defs []localDef
 		var walk func(ss []ast.Stmt) bool
 		walk = func(ss []ast.Stmt) bool {
 			for _, s := range ss {
@@ -1107,6 +1112,11 @@ func translate(p *pkg, it Item) (out string, err error) {
 							if id.Name == it.Local && (x.Tok == token.DEFINE || x.Tok == token.ASSIGN) {
 								found = x.Rhs[0]
 								return true
+							}
+							// another local defined with := on the way: remembered, and emitted as a `let` only if the
+							// wanted expression mentions it (directly or through another remembered local)
+							if x.Tok == token.DEFINE && id.Name != "_" {
+								defs = append(defs, localDef{id.Name, x.Rhs[0]})
 							}
 						}
 					}
@@ -1139,12 +1149,44 @@ func translate(p *pkg, it Item) (out string, err error) {
 					if walk(x.List) {
 						return true
 					}
+				case *ast.RangeStmt:
+					if walk(x.Body.List) {
+						return true
+					}
+				case *ast.ForStmt:
+					if walk(x.Body.List) {
+						return true
+					}
 				}
 			}
 			return false
 		}
 		if !walk(fd.Body.List) || found == nil {
 			return "", fmt.Errorf("local %s not found in %s", it.Local, what)
+		}
+		// `:=` locals the expression depends on become `let`s in source order
+		needed := map[string]bool{}
+		mark := func(e ast.Expr) {
+			ast.Inspect(e, func(n ast.Node) bool {
+				if id, ok := n.(*ast.Ident); ok {
+					needed[id.Name] = true
+				}
+				return true
+			})
+		}
+		mark(found)
+		keep := make([]bool, len(defs))
+		for i := len(defs) - 1; i >= 0; i-- {
+			if _, known := t.vars[defs[i].name]; needed[defs[i].name] && !known {
+				keep[i] = true
+				mark(defs[i].rhs)
+			}
+		}
+		for i, d := range defs {
+			if keep[i] {
+				le, lty := t.exprWithFields(d.rhs, fd)
+				pre += t.bind(d.name, le, lty, "  ")
+			}
 		}
 		// struct-typed value receivers/params with integer fields (Position{X,Y,Z int})
 		e, ty := t.exprWithFields(found, fd)
